@@ -35,7 +35,7 @@ func genTdWait(tier string, seed int64, only string) []*Case {
 	var out []*Case
 	id := 0
 	for r := 0; r < reps; r++ {
-		for _, via := range []string{"plain", "map", "chain", "merge", "collect"} {
+		for _, via := range []string{"plain", "map", "chain", "merge", "collect", "evsafe", "evsafeobs"} {
 			if only != "" && only != via {
 				continue
 			}
@@ -48,8 +48,85 @@ func genTdWait(tier string, seed int64, only string) []*Case {
 	return out
 }
 
+// via=evsafe / evsafeobs: an EVENTUALLY-SAFE subscriber (its Next gives way under contention: TryLock, drop) whose
+// terminal arrives from a second goroutine while a Next callback is still running. Only values may be given up: Error
+// and Complete wait for the lock in every mode (RoProps/C07k.kernel_terminal_refused_only_when_closed: a terminal is
+// refused only by a subscriber that is already closed), so the terminal is delivered once the callback has returned, the
+// subscription closes, its teardown runs once and Wait returns.
+func runTdWaitEvSafe(c *Case) string {
+	fail := c.get("end", "C") == "E"
+	entered, gate := make(chan struct{}), make(chan struct{})
+	term := make(chan string, 4)
+	var tds int32
+	dest := ro.NewObserver(func(int) {
+		select {
+		case <-entered:
+		default:
+			close(entered)
+			<-gate
+		}
+	}, func(error) { term <- "E" }, func() { term <- "C" })
+	var sub ro.Subscription
+	var prod ro.Observer[int]
+	if c.get("via", "") == "evsafe" {
+		s := ro.NewEventuallySafeSubscriber[int](dest)
+		s.Add(func() { atomic.AddInt32(&tds, 1) })
+		sub, prod = s, s
+	} else {
+		ready := make(chan ro.Observer[int], 1)
+		sub = ro.NewEventuallySafeObservable(func(d ro.Observer[int]) ro.Teardown {
+			ready <- d
+			return func() { atomic.AddInt32(&tds, 1) }
+		}).Subscribe(dest)
+		prod = <-ready
+	}
+	go prod.Next(1)
+	select {
+	case <-entered:
+	case <-time.After(2 * time.Second):
+		return "res " + c.id + " _flag=callback-never-entered"
+	}
+	returned := make(chan struct{})
+	go func() {
+		if fail {
+			prod.Error(userErr{1})
+		} else {
+			prod.Complete()
+		}
+		close(returned)
+	}()
+	time.Sleep(2 * time.Millisecond) // the terminal call is under way (waiting for the lock, or — wrongly — already given up)
+	close(gate)
+	hang := 0
+	select {
+	case <-returned:
+	case <-time.After(2 * time.Second):
+		hang = 1
+	}
+	waited := make(chan struct{})
+	go func() { sub.Wait(); close(waited) }()
+	wait := "returned"
+	select {
+	case <-waited:
+	case <-time.After(time.Second):
+		wait = "hung"
+	}
+	t := "-"
+	select {
+	case t = <-term:
+	default:
+	}
+	if n := atomic.LoadInt32(&tds); n != 1 && wait == "returned" {
+		return fmt.Sprintf("res %s _flag=teardown-ran-%d-times", c.id, n)
+	}
+	return fmt.Sprintf("res %s hang=%d wait=%s term=%s", c.id, hang, wait, t)
+}
+
 func runTdWait(c *Case) string {
 	setRecorder(nil)
+	if v := c.get("via", ""); v == "evsafe" || v == "evsafeobs" {
+		return runTdWaitEvSafe(c)
+	}
 	fail := c.get("end", "C") == "E"
 	var hang int32
 	src := ro.NewObservableWithContext(func(ctx context.Context, dest ro.Observer[int]) ro.Teardown {
